@@ -102,6 +102,12 @@ def generate(seed, run, tier):
     if r.random() < 0.25:
         chain = r.choice([['move_agent', 'turn_agent', 'move_obstacles'], ['move_agent', 'turn_agent', 'teleport']])
     rec['chain'] = chain
+    if len(chain) >= 3 and r.random() < 0.2:
+        i = r.randrange(len(chain) - 2)
+        j = r.randint(i + 1, len(chain) - 1)
+        rec['nest'] = [i, j]
+        if r.random() < 0.6:
+            rec['nest2'] = [j, r.randint(j + 1, len(chain))]
     ops = []
     for _ in range(r.randint(8, 30 if not big else 60)):
         m = r.random()
@@ -236,6 +242,9 @@ class Runner:
             'types': ['Floor', 'Wall', 'Exit', 'Door', 'Key', 'MovingObstacle', 'Box', 'Telepod', 'Beacon'], 'colors': list(COLORS),
             'via_factory': record['run'] % 2 == 0,
         }
+        for k in ('nest', 'nest2'):
+            if record.get(k):
+                spec[k] = record[k]
         self.envs = {}
         self.spec = spec
         self.sim = Sim({'clients': [], 'ops': [], 'property': PROP}, ctx, [])
